@@ -5,6 +5,10 @@
 // memory access inside library code is (a) checked by an ownership monitor and (b) a preemption point
 // of the seeded scheduler, so calls overlap *inside* each other. Oracles: ownership invariant on
 // every access; results and final memory equal to the sequential execution of the same programs.
+#include <iconv.h>
+#include <wchar.h>
+#include <time.h>
+#include <stdlib.h>
 #include <locale.h>
 #include <signal.h>
 #include <sys/mman.h>
@@ -158,7 +162,9 @@ static std::string gen(const std::string &prop, uint64_t base, uint64_t idx, boo
     for (int i = 0; i < ncalls; i++) {
         int t = (int)r.below(ntasks);
         if (bind_nextras && r.chance(0.08)) {  // new pointer-free API (none on the pinned tree)
-            calllines.push_back(strf("call t=%d fn=extra a=%u b=%u c=%u d=%u", t, (unsigned)r.below(bind_nextras), (unsigned)r.below(4), (unsigned)r.below(4), (unsigned)r.below(4)));
+            // (arguments: small values, and any 8-bit code - the codes of the formats are 8 bits wide and not all of them are defined)
+            auto xa = [&] { return (unsigned)(r.coin() ? r.below(4) : r.below(256)); };
+            calllines.push_back(strf("call t=%d fn=extra a=%u b=%u c=%u d=%u", t, (unsigned)r.below(bind_nextras), xa(), xa(), xa()));
             continue;
         }
         unsigned k = (unsigned)r.below(100);
@@ -328,7 +334,8 @@ struct World {
     size_t arena_used = kArenaSize;          // bytes of the arena that hold objects (rounded up to pages)
     struct HeapObj { uintptr_t p; size_t n; int task; };
     std::vector<HeapObj> heap;              // blocks allocated by library code during a call: owned by the calling task until freed
-    uint64_t pr_heap = 0, pr_extra = 0, pr_env = 0;
+    uint64_t pr_heap = 0, pr_extra = 0, pr_env = 0, pr_libc_state = 0;
+    std::map<uintptr_t, int> handle_user;  // opaque libc handle -> the task whose call used it first
     bool env_on = false;                    // every environment variable library code asks for reads "1" in this run
     uint64_t events = 0;
     uint64_t static_bytes = 0;
@@ -487,6 +494,20 @@ void __sanitizer_cov_trace_pc(void) {
 #define LOADCB(N) void __sanitizer_cov_load##N(void *a) { if (lib_active()) { check_access((uintptr_t)a, N, false, (uintptr_t)__builtin_return_address(0)); preempt_point(false, (uintptr_t)a); } }
 #define STORECB(N) void __sanitizer_cov_store##N(void *a) { if (lib_active()) { check_access((uintptr_t)a, N, true, (uintptr_t)__builtin_return_address(0)); preempt_point(true, (uintptr_t)a); } }
 LOADCB(1) LOADCB(2) LOADCB(4) LOADCB(8) LOADCB(16)
+// gcc has no such callbacks in its coverage instrumentation, but its thread-sanitizer pass announces every access that can be
+// visible to another thread (__tsan_read4(addr) ...). The gcc build of the library is compiled with -fsanitize=thread and linked
+// against these definitions instead of the sanitizer's run-time library.
+#define TSANCB(N)                                                                                                                                       \
+    void __tsan_read##N(void *a) { if (lib_active()) { check_access((uintptr_t)a, N, false, (uintptr_t)__builtin_return_address(0)); preempt_point(false, (uintptr_t)a); } }  \
+    void __tsan_write##N(void *a) { if (lib_active()) { check_access((uintptr_t)a, N, true, (uintptr_t)__builtin_return_address(0)); preempt_point(true, (uintptr_t)a); } }  \
+    void __tsan_unaligned_read##N(void *a) { if (lib_active()) { check_access((uintptr_t)a, N, false, (uintptr_t)__builtin_return_address(0)); preempt_point(false, (uintptr_t)a); } }  \
+    void __tsan_unaligned_write##N(void *a) { if (lib_active()) { check_access((uintptr_t)a, N, true, (uintptr_t)__builtin_return_address(0)); preempt_point(true, (uintptr_t)a); } }
+TSANCB(1) TSANCB(2) TSANCB(4) TSANCB(8) TSANCB(16)
+void __tsan_read_range(void *a, long n) { if (lib_active() && n > 0) { check_access((uintptr_t)a, (size_t)n, false, (uintptr_t)__builtin_return_address(0)); preempt_point(false, (uintptr_t)a); } }
+void __tsan_write_range(void *a, long n) { if (lib_active() && n > 0) { check_access((uintptr_t)a, (size_t)n, true, (uintptr_t)__builtin_return_address(0)); preempt_point(true, (uintptr_t)a); } }
+void __tsan_init(void) {}
+void __tsan_func_entry(void *) {}
+void __tsan_func_exit(void) {}
 STORECB(1) STORECB(2) STORECB(4) STORECB(8) STORECB(16)
 
 void *__wrap_memcpy(void *d, const void *s, size_t n) {
@@ -526,6 +547,70 @@ UNSAFE_LIBC(char *, ctime, (const time_t *t), (t))
 UNSAFE_LIBC(char *, asctime, (const struct tm *t), (t))
 UNSAFE_LIBC(char *, strerror, (int e), (e))
 UNSAFE_LIBC(char *, setlocale, (int c, const char *l), (c, l))
+
+// libc facilities that keep their state in an object the CALLER of libc provides (the _r family, conversion states): libc does the
+// stores, so no access callback sees them. The state object is checked like any other store of the library call: fine on the
+// call's own stack or in the objects passed to the call, a breach in static storage, in another caller's objects or in a heap block
+// that outlives the call.
+#define STATE_LIBC(ret, name, params, args, stateptr, statesize)                                                               \
+    ret __real_##name params;                                                                                                  \
+    ret __wrap_##name params {                                                                                                 \
+        uintptr_t pc = (uintptr_t)__builtin_return_address(0);                                                                 \
+        if (lib_active() && sim::g_symtab.is_repo(pc)) {                                                                        \
+            W->pr_libc_state++;                                                                                                \
+            if (!(stateptr))                                                                                                   \
+                violation(std::string("shared-state:libc-") + #name + ":" + sim::g_symtab.func(pc),                            \
+                          sim::g_symtab.func(pc) + "() calls " #name "() without a state object: libc then uses hidden static state"); \
+            check_access((uintptr_t)(stateptr), (statesize), true, pc);                                                        \
+            preempt_point(true, (uintptr_t)(stateptr));                                                                        \
+        }                                                                                                                      \
+        return __real_##name args;                                                                                             \
+    }
+STATE_LIBC(int, rand_r, (unsigned *sd), (sd), sd, sizeof *sd)
+STATE_LIBC(char *, strtok_r, (char *s, const char *d, char **sv), (s, d, sv), sv, sizeof *sv)
+STATE_LIBC(int, random_r, (struct random_data *b, int32_t *r), (b, r), b, sizeof *b)
+STATE_LIBC(int, srandom_r, (unsigned sd, struct random_data *b), (sd, b), b, sizeof *b)
+STATE_LIBC(int, initstate_r, (unsigned sd, char *st, size_t n, struct random_data *b), (sd, st, n, b), b, sizeof *b)
+STATE_LIBC(int, setstate_r, (char *st, struct random_data *b), (st, b), b, sizeof *b)
+STATE_LIBC(int, drand48_r, (struct drand48_data *b, double *r), (b, r), b, sizeof *b)
+STATE_LIBC(int, lrand48_r, (struct drand48_data *b, long *r), (b, r), b, sizeof *b)
+STATE_LIBC(int, mrand48_r, (struct drand48_data *b, long *r), (b, r), b, sizeof *b)
+STATE_LIBC(int, erand48_r, (unsigned short x[3], struct drand48_data *b, double *r), (x, b, r), b, sizeof *b)
+STATE_LIBC(int, nrand48_r, (unsigned short x[3], struct drand48_data *b, long *r), (x, b, r), b, sizeof *b)
+STATE_LIBC(int, jrand48_r, (unsigned short x[3], struct drand48_data *b, long *r), (x, b, r), b, sizeof *b)
+STATE_LIBC(int, srand48_r, (long sd, struct drand48_data *b), (sd, b), b, sizeof *b)
+STATE_LIBC(int, seed48_r, (unsigned short x[3], struct drand48_data *b), (x, b), b, sizeof *b)
+STATE_LIBC(int, lcong48_r, (unsigned short x[7], struct drand48_data *b), (x, b), b, sizeof *b)
+STATE_LIBC(size_t, mbrtowc, (wchar_t *pwc, const char *s, size_t n, mbstate_t *ps), (pwc, s, n, ps), ps, sizeof *ps)
+STATE_LIBC(size_t, mbrlen, (const char *s, size_t n, mbstate_t *ps), (s, n, ps), ps, sizeof *ps)
+STATE_LIBC(size_t, wcrtomb, (char *s, wchar_t wc, mbstate_t *ps), (s, wc, ps), ps, sizeof *ps)
+STATE_LIBC(size_t, mbsrtowcs, (wchar_t *d, const char **s, size_t n, mbstate_t *ps), (d, s, n, ps), ps, sizeof *ps)
+STATE_LIBC(size_t, wcsrtombs, (char *d, const wchar_t **s, size_t n, mbstate_t *ps), (d, s, n, ps), ps, sizeof *ps)
+STATE_LIBC(struct tm *, localtime_r, (const time_t *t, struct tm *r), (t, r), r, sizeof *r)
+STATE_LIBC(struct tm *, gmtime_r, (const time_t *t, struct tm *r), (t, r), r, sizeof *r)
+// ... and those whose state is an opaque handle (a conversion descriptor): libc documents a data race when two threads use one
+// handle, so a handle that serves the calls of two different callers (who share no object) is state shared behind their backs
+size_t __real_iconv(iconv_t, char **, size_t *, char **, size_t *);
+size_t __wrap_iconv(iconv_t cd, char **in, size_t *inleft, char **out, size_t *outleft) {
+    uintptr_t pc = (uintptr_t)__builtin_return_address(0);
+    if (lib_active() && sim::g_symtab.is_repo(pc)) {
+        W->pr_libc_state++;
+        int me = W->tasks.cur()->id;
+        auto it = W->handle_user.find((uintptr_t)cd);
+        if (it == W->handle_user.end()) W->handle_user[(uintptr_t)cd] = me;
+        else if (it->second != me)
+            violation(std::string("shared-state:libc-handle:iconv:") + sim::g_symtab.func(pc),
+                      strf("%s() running for task %d converts through the iconv descriptor %p that it already used for task %d: the descriptor (its shift state and "
+                           "counters, written by every conversion) is shared between callers that share no object", sim::g_symtab.func(pc).c_str(), me, (void *)cd, it->second));
+        preempt_point(true, 0);
+    }
+    return __real_iconv(cd, in, inleft, out, outleft);
+}
+int __real_iconv_close(iconv_t);
+int __wrap_iconv_close(iconv_t cd) {
+    if (W) W->handle_user.erase((uintptr_t)cd);
+    return __real_iconv_close(cd);
+}
 
 // Heap blocks that library code allocates for itself are that call's own temporaries (like stack locals); they become foreign
 // objects for every other task, and a block that outlives its call is only reachable through static storage, whose write is reported.
@@ -1063,6 +1148,7 @@ static void exec(const std::string &text, bool verbose) {
     g_res.counters["library_heap_blocks"] = w.pr_heap;
     if (bind_nextras) g_res.counters["calls_of_new_pointer_free_api"] = w.pr_extra;
     if (w.pr_env) g_res.counters["environment_lookups_by_library_code"] = w.pr_env;
+    if (w.pr_libc_state) g_res.counters["libc_calls_with_state_object_by_library_code"] = w.pr_libc_state;
     g_res.counters["scen." + saved_policy] = 1;
     g_res.counters[w.guard_layout ? "layout.guard_pages" : "layout.packed"] = 1;
     sim::finish_run(g_res);
@@ -1169,7 +1255,11 @@ int main(int argc, char **argv) {
         std::string un;
         for (unsigned i = 0; i < bind_nformats; i++)
             for (unsigned k = 0; k < bind_formats[i]->nfuncs; k++)
-                if (bind_formats[i]->funcs[k].kind == 7) un += std::string(un.empty() ? "" : ", ") + bind_formats[i]->funcs[k].name;
+                if (bind_formats[i]->funcs[k].kind == 7) {
+                    bool called = false;  // (new API without pointer parameters is called through its generated thunk)
+                    for (unsigned x = 0; x < bind_nextras; x++) called |= !strcmp(bind_extras[x].name, bind_formats[i]->funcs[k].name);
+                    if (!called) un += std::string(un.empty() ? "" : ", ") + bind_formats[i]->funcs[k].name;
+                }
         for (unsigned i = 0; bind_new_uncallable[i]; i++)
             if (un.find(bind_new_uncallable[i]) == std::string::npos) un += std::string(un.empty() ? "" : ", ") + bind_new_uncallable[i];
         if (!un.empty()) {
@@ -1185,12 +1275,13 @@ int main(int argc, char **argv) {
     e.quick_wall_cap = 150;
     e.thorough_wall_cap = 1500;
 #ifdef REENT_VARIANT_GCC
-    // second build: the library as the repository's own default toolchain compiles it (gcc -O2). gcc offers basic-block callbacks
-    // only, so this variant decides by interleaving + sequential equivalence + the static-storage comparison, not by access ownership.
-    e.rule = "same plans as the clang build, executed against the library compiled by gcc -O2 -fsanitize-coverage=trace-pc: preemption at basic blocks of library "
-             "code, results and memory compared with the sequential execution, .data/.bss of the library compared before/after; distinct = distinct event-log "
+    // second build: the library as the repository's own default toolchain compiles it (gcc -O2). gcc's coverage instrumentation offers
+    // basic-block callbacks only; the access callbacks come from its thread-sanitizer pass (-fsanitize=thread), answered by this engine.
+    e.rule = "same plans as the clang build, executed against the library compiled by gcc -O2 -fsanitize-coverage=trace-pc -fsanitize=thread (the __tsan_read/write "
+             "callbacks are implemented by the engine, no sanitizer runtime): preemption at basic blocks and at memory accesses of library code, access ownership, "
+             "results and memory compared with the sequential execution, .data/.bss of the library compared before/after; distinct = distinct event-log "
              "digest; non-trivial = at least one preemption inside a library call with >= 2 tasks";
-    e.real_components = {"libopen1722 + libopen1722custom built from /repo/src by gcc -O2 with -fsanitize-coverage=trace-pc",
+    e.real_components = {"libopen1722 + libopen1722custom built from /repo/src by gcc -O2 with -fsanitize-coverage=trace-pc -fsanitize=thread (callbacks only)",
                          "call bindings generated from /repo/include and compiled by gcc -O2; hand-written drivers for builders/VSS codec"};
     e.probes = {"probe.preempted_inside_library_call", "probe.preempted_inside_call_on_shared_pdu", "probe.calls_with_invalid_arguments"};
     e.quick_runs = 4600;
